@@ -30,26 +30,25 @@ theorem stripBrackets_wrapV6_infix (h : Bytes) : stripBrackets (wrapV6 h) <:+: h
 /-- what `Url._parse` can return for ANY authority text `a`: the connect host
     (brackets removed) is a contiguous piece of `a`, and a port is the `int()`
     value of the text after the last colon of `a`. -/
-theorem hostPort_substring (raw hp : Bytes) (u p : Option Bytes) (hsuf : hp <:+ raw)
+theorem hostPort_substring (raw hp : Bytes) (u p : Option Bytes)
     {u' p' : Option Bytes} {h : Bytes} {port : Option Int}
     (e : hostPort raw u p hp = .ok (u', p', h, port)) :
-    stripBrackets h <:+: raw ∧
-    (∀ v, port = some v → ∃ pre s, raw = pre ++ COLON :: s ∧ COLON ∉ s ∧ pyInt 10 s = some v) := by
-  obtain ⟨pre0, hpre0⟩ := hsuf
+    stripBrackets h <:+: hp ∧
+    (∀ v, port = some v → ∃ pre s, hp = pre ++ COLON :: s ∧ COLON ∉ s ∧ pyInt 10 s = some v) := by
   unfold hostPort at e
   split at e
   · rename_i h0 hs
     simp at e; obtain ⟨_, _, rfl, rfl⟩ := e
     have := splitN1_two_eq_single hs; subst this
-    exact ⟨(stripBrackets_infix _).trans ⟨pre0, [], by simp [hpre0]⟩, by simp⟩
+    exact ⟨stripBrackets_infix _, by simp⟩
   · rename_i h0 p0 hs
     obtain ⟨hx, hh, hp0⟩ := splitN1_two_eq_pair hs
     split at e
     · rename_i v hv
       simp at e; obtain ⟨_, _, rfl, rfl⟩ := e
-      refine ⟨(stripBrackets_infix _).trans ⟨pre0, COLON :: p0, by rw [← hpre0, hx]; simp⟩, ?_⟩
+      refine ⟨(stripBrackets_infix _).trans ⟨[], COLON :: p0, by rw [hx]; simp⟩, ?_⟩
       intro v' hv'; simp at hv'; subst hv'
-      exact ⟨pre0 ++ h0, p0, by rw [← hpre0, hx]; simp, hp0, hv⟩
+      exact ⟨h0, p0, hx, hp0, hv⟩
     · simp at e
   · rename_i a c last hs
     obtain ⟨hx, ha, hc⟩ := splitN1_two_eq_triple hs
@@ -62,35 +61,38 @@ theorem hostPort_substring (raw hp : Bytes) (u p : Option Bytes) (hsuf : hp <:+ 
       have hd : (splitAll1 COLON last).dropLast = init := by rw [hl]; simp
       rw [hg, hd]
       cases hv : pyInt 10 y with
-      | none => exact ⟨stripBrackets_wrapV6_infix raw, by simp⟩
+      | none => exact ⟨stripBrackets_wrapV6_infix hp, by simp⟩
       | some v =>
         simp only
         refine ⟨(stripBrackets_wrapV6_infix _).trans
-          ⟨pre0, (if init = [] then [] else [COLON]) ++ y, ?_⟩, ?_⟩
-        · rw [← hpre0, hx, hlast]; simp
+          ⟨[], (if init = [] then [] else [COLON]) ++ y, ?_⟩, ?_⟩
+        · rw [hx, hlast]; simp
         · intro v' hv'; simp at hv'; subst hv'
           by_cases hi : init = []
           · subst hi
             simp [join] at hlast
-            exact ⟨pre0 ++ a ++ COLON :: c, y, by rw [← hpre0, hx, hlast]; simp, hy, hv⟩
+            exact ⟨a ++ COLON :: c, y, by rw [hx, hlast]; simp, hy, hv⟩
           · simp only [hi, if_false] at hlast
-            exact ⟨pre0 ++ a ++ COLON :: (c ++ COLON :: join [COLON] init), y,
-              by rw [← hpre0, hx, hlast]; simp, hy, hv⟩
+            exact ⟨a ++ COLON :: (c ++ COLON :: join [COLON] init), y,
+              by rw [hx, hlast]; simp, hy, hv⟩
     · simp at e
   · simp at e
 
 theorem parseAuthority_substring (a : Bytes) {u p : Option Bytes} {h : Bytes} {port : Option Int}
     (e : parseAuthority a = .ok (u, p, h, port)) :
-    stripBrackets h <:+: a ∧
-    (∀ v, port = some v → ∃ pre s, a = pre ++ COLON :: s ∧ COLON ∉ s ∧ pyInt 10 s = some v) := by
+    ∃ hp, hp <:+ a ∧ (AT ∉ a → hp = a) ∧ stripBrackets h <:+: hp ∧
+    (∀ v, port = some v → ∃ pre s, hp = pre ++ COLON :: s ∧ COLON ∉ s ∧ pyInt 10 s = some v) := by
   rw [parseAuthority_eq] at e
   split at e
-  · exact hostPort_substring a a none none (List.suffix_refl a) e
+  · obtain ⟨h1, h2⟩ := hostPort_substring a a none none e
+    exact ⟨a, List.suffix_refl a, fun _ => rfl, h1, h2⟩
   · rename_i ui hp hs
     obtain ⟨hx, _⟩ := (splitOnce1_some_iff AT a ui hp).1 hs
     split at e
-    · exact hostPort_substring a hp _ _ ⟨ui ++ [AT], by rw [hx]; simp⟩ e
+    · obtain ⟨h1, h2⟩ := hostPort_substring a hp _ _ e
+      exact ⟨hp, ⟨ui ++ [AT], by rw [hx]; simp⟩, fun hn => absurd (by rw [hx]; simp) hn, h1, h2⟩
     · simp at e
+
 /-! ### `Url._parse` on well-formed authorities -/
 
 theorem hostPort_plain (raw : Bytes) (u p : Option Bytes) (h : Bytes) (hc : COLON ∉ h) :
@@ -153,20 +155,23 @@ theorem wrapV6_of_head_lbr (h : Bytes) (hh : h.head? = some LBR) : wrapV6 h = h 
   unfold wrapV6; simp [hh]
 
 theorem hostPort_v6_noport (raw : Bytes) (u p : Option Bytes) (t : Bytes) (ht : V6Class t) :
-    hostPort raw u p ([LBR] ++ t ++ [RBR]) =
-      if utf8Valid raw then .ok (u, p, wrapV6 raw, none) else .error .valueError := by
+    hostPort raw u p ([LBR] ++ t ++ [RBR]) = .ok (u, p, [LBR] ++ t ++ [RBR], none) := by
   obtain ⟨a, c, rest, he, ha, hc⟩ := two_colons t ht.2
   have e : [LBR] ++ t ++ [RBR] = (LBR :: a) ++ COLON :: (c ++ COLON :: (rest ++ [RBR])) := by
     rw [he]; simp
   have ha' : COLON ∉ LBR :: a := by
     simp only [List.mem_cons, not_or]; exact ⟨by decide, ha⟩
+  have hu := utf8Valid_ascii _ ht.ascii
+  have hw := wrapV6_of_head_lbr ([LBR] ++ t ++ [RBR]) (by simp)
+  rw [e] at hu hw ⊢
   unfold hostPort
-  rw [e, splitN1_two_triple _ c _ ha' hc]
+  rw [splitN1_two_triple _ c _ ha' hc]
   obtain ⟨init, y, hl, hy⟩ := last_part_has_rbr rest
   have hg : (splitAll1 COLON (rest ++ [RBR])).getLast?.getD [] = y := by rw [hl]; simp
-  have hv : v6Split raw (LBR :: a) c (rest ++ [RBR]) = (raw, none) := by
+  have hv : v6Split ((LBR :: a) ++ COLON :: (c ++ COLON :: (rest ++ [RBR]))) (LBR :: a) c (rest ++ [RBR]) =
+      ((LBR :: a) ++ COLON :: (c ++ COLON :: (rest ++ [RBR])), none) := by
     unfold v6Split; rw [hg, pyInt_none_of_rbr y hy]
-  simp only [hv]
+  simp only [hv, hu, if_true, hw]
 
 theorem hostPort_v6_port (raw : Bytes) (u p : Option Bytes) (t ds : Bytes) (v : Int) (ht : V6Class t)
     (hd : COLON ∉ ds) (hv : pyInt 10 ds = some v) :
@@ -183,7 +188,8 @@ theorem hostPort_v6_port (raw : Bytes) (u p : Option Bytes) (t ds : Bytes) (v : 
   have hg : (splitAll1 COLON ((rest ++ [RBR]) ++ COLON :: ds)).getLast?.getD [] = ds := by rw [hsp]; simp
   have hdl : (splitAll1 COLON ((rest ++ [RBR]) ++ COLON :: ds)).dropLast = splitAll1 COLON (rest ++ [RBR]) := by
     rw [hsp]; simp
-  have hval : v6Split raw (LBR :: a) c ((rest ++ [RBR]) ++ COLON :: ds) = ([LBR] ++ t ++ [RBR], some v) := by
+  have hval : ∀ hp0, v6Split hp0 (LBR :: a) c ((rest ++ [RBR]) ++ COLON :: ds) = ([LBR] ++ t ++ [RBR], some v) := by
+    intro hp0
     unfold v6Split
     rw [hg, hv, hdl, join_splitAll1, he]
     simp
